@@ -30,6 +30,7 @@ TDerived == /\ Ev.e = "derived"
                  [] Ev.name = "block_body" -> Ev.same = TRUE                        \* Block::body() is region().body()
                  [] Ev.name = "template_parameters" -> Ev.same = TRUE               \* parameters() is mapping().parameters()
                  [] Ev.name = "template_result" -> Ev.same = TRUE                   \* result() is mapping().result()
+                 [] Ev.name = "where_attendant" -> Ev.same = TRUE                   \* attendant() is second() is the region's bindings
                  [] Ev.name = "default_value" -> Ev.derived = Ev.initializer        \* default_value() is initializer()
                  [] Ev.name = "type_linkage" -> Ev.same = TRUE                      \* linkage() is transfer().linkage()
                  [] Ev.name = "scope_size" -> Ev.derived = Ev.elements              \* Scope::size() is elements().size()
